@@ -224,6 +224,9 @@ func (env *SpecEnv) lookupIdent(name string) (TV, bool) {
 			for _, in := range b.Instrs {
 				if a, ok := in.(*ssa.Alloc); ok && a.Comment == name {
 					if _, have := env.fr.regs[a]; have {
+						if env.atExit && env.fr.exitBlock != nil && !a.Block().Dominates(env.fr.exitBlock) && found != nil {
+							continue // a shadowing declaration on another path: keep the one in scope at this exit
+						}
 						found = a
 					}
 				}
@@ -983,6 +986,20 @@ func (env *SpecEnv) evalCall(e *SExpr) TV {
 			return TV{&VS{vc.errorsIs(a, b)}, boolT}
 		case "dyntype":
 			return TV{&VS{mkApp("dyntype", SInt, env.scalar(env.eval(e.Args[0])))}, mathInt}
+		case "hasptrtype":
+			// hasptrtype(x, T) / hasptrtype(x, pkg.T): the interface value x holds a *T
+			var st SType
+			switch a := e.Args[1]; a.Kind {
+			case SIdent:
+				st = SType{Name: a.Name}
+			case SSel:
+				st = SType{Pkg: a.X.Name, Name: a.Name}
+			default:
+				env.fail("hasptrtype(x, T): T must be a type name")
+			}
+			pt := types.NewPointer(env.resolveType(&st))
+			vc.eng.typeTags[typeKey(pt)] = true
+			return TV{&VS{mkEq(mkApp("dyntype", SInt, env.scalar(env.eval(e.Args[0]))), vc.typeTag(pt))}, boolT}
 		case "uf":
 			// uf("name", Sort-as-string, args...)
 			nm := e.Args[0].Name
